@@ -291,6 +291,32 @@ def buildGameCond : List Cmd :=
 
 def resetProgCond : List Cmd := [ .setGlob gRng .arg ] ++ resetHead ++ buildGameCond
 
+/-! #### a log call whose working depends on a process-wide output flag (NOT the code any more: finding F-C04-r7-1)
+
+`SIM_OUTPUT` is sink-only: the skeleton reads it in `log` commands, which have no effect. That abstraction was wrong while a log call
+could RAISE: a `SysLog` / `PacketCapture` set its file logger up only when the flag (`save_sys_logs` / `save_pcap_logs`) was on at BUILD
+time and dereferenced it whenever the flag was on at LOG time - the flag being what the environment constructed LAST wrote. These
+programs say that: `lLogger` = "this game's loggers exist", a raising log call is the marker `raiseMark` in the returned values. Since
+the repair the dereference is guarded by the object's own state (`C04_gen_sink_flag_uses_guarded`), i.e. the read is a `log` again. -/
+
+def lLogger : Nat := 3       -- 1 iff this game's SysLogs / PacketCaptures set their file loggers up (the flag as it was at BUILD time)
+def raiseMark : Val := -1    -- `AttributeError` out of `step` / `reset` (what the caller sees instead of the observation)
+
+/-- `from_config` building loggers according to the process-wide flag of the moment -/
+def buildGameSinkFlag : List Cmd :=
+  buildGame ++ [ .setLoc lLogger (.glob gSimOutput),
+                 -- `update_agents` / the first traffic of the new game log as well
+                 .emit (.ite (.glob gSimOutput) (.ite (.loc lLogger) (.lit 0) (.lit raiseMark)) (.lit 0)) ]
+
+def constructProgSinkFlag : List Cmd :=
+  [ .setGlob gRng .arg, .setGlob gSimOutput (.env eIo), .setEnv eEpisode (.lit 0) ] ++ buildGameSinkFlag
+
+def resetProgSinkFlag : List Cmd := [ .setGlob gRng .arg ] ++ resetHead ++ buildGameSinkFlag
+
+/-- `step` with log calls of the shape `if SIM_OUTPUT.save_sys_logs: self.logger.info(msg)` -/
+def stepProgSinkFlag : List Cmd :=
+  stepProgClean ++ [ .emit (.ite (.glob gSimOutput) (.ite (.loc lLogger) (.lit 0) (.lit raiseMark)) (.lit 0)) ]
+
 /-! ### the seed argument: which skeleton operation a CALL `reset(seed=â€¦)` / `PrimaiteGymEnv(cfg)` is
 
 `reset`'s parameter is `Optional[int]`; `None` and `0` are different arguments. The code tests `seed is not None` and hands the value to
@@ -333,6 +359,16 @@ def constructCall (seed : Option Int) (gen : Bool := false) : Option (List Cmd Ã
   | .keeps => some (constructProgNoSeed, 0)
   | .generated => none
   | .raises => none
+
+/-- `PrimaiteRayMARLEnv.reset(seed=â€¦)` (session/ray_envs.py): the class never looks at its `seed` argument and never calls
+`set_random_seed` (Gen: `marlSeedCalls = []`) - whatever the argument, the call is the UNSEEDED reset -/
+def marlResetCall (_seed : Option Int) : Option (List Cmd Ã— Val) := some (resetProgNoSeed, 0)
+
+/-- `PrimaiteRayMARLEnv(cfg)`: `game.seed` of the scenario is not read either - the unseeded construction -/
+def marlConstructCall (_seed : Option Int) : Option (List Cmd Ã— Val) := some (constructProgNoSeed, 0)
+
+/-- `PrimaiteRayEnv` wraps a `PrimaiteGymEnv` and hands `reset(seed=seed)` / `step(action)` on to it (Gen: `rayEnvâ€¦`) -/
+def rayEnvResetCall (seed : Option Int) (gen : Bool := false) : Option (List Cmd Ã— Val) := resetCall seed gen
 
 /-- NOT the code: `reset` with the guard written as a truthiness test (`if seed:`): `reset(seed=0)` is an unseeded reset -/
 def resetSeedGuardTruthy (seed : Option Int) : Bool :=
